@@ -50,8 +50,30 @@ type LoadConfig struct {
 	SSA    bool
 }
 
+// ShareLoads makes Load reuse, within one process, the Program loaded for the same configuration
+// (the `check-all` command of the self-test scripts; single checks always load afresh).
+var ShareLoads bool
+var loadCache = map[string]*Program{}
+
 // Load loads every package of the module from r.Repo's working tree.
 func (r *Run) Load(cfg LoadConfig) *Program {
+	if !ShareLoads {
+		return r.load(cfg)
+	}
+	key := fmt.Sprintf("%s|%+v", r.Repo, cfg)
+	if p, ok := loadCache[key]; ok {
+		r.Count("packages_loaded", len(p.Pkgs))
+		return p
+	}
+	nf := r.FatalCount()
+	p := r.load(cfg)
+	if p != nil && r.FatalCount() == nf {
+		loadCache[key] = p
+	}
+	return p
+}
+
+func (r *Run) load(cfg LoadConfig) *Program {
 	mode := packages.LoadSyntax
 	if cfg.SSA {
 		mode = packages.LoadAllSyntax
@@ -66,6 +88,12 @@ func (r *Run) Load(cfg LoadConfig) *Program {
 	pc := &packages.Config{Mode: mode, Dir: r.Repo, Tests: false, Env: env}
 	if cfg.Tags != "" {
 		pc.BuildFlags = []string{"-tags=" + cfg.Tags}
+	}
+	if os.Getenv("BMVERIF_TRIMPATH") != "" {
+		// used by the self-test scripts only: with -trimpath the build cache entries of the packages
+		// a scratch worktree did not change are shared with /repo's (export data of non-module
+		// dependencies; module packages are always type-checked from source)
+		pc.BuildFlags = append(pc.BuildFlags, "-trimpath")
 	}
 	pkgs, err := packages.Load(pc, "./...")
 	if err != nil {
